@@ -14,6 +14,7 @@ blocks its thread until ``steps >= wake``; when only timer-blocked threads
 remain the clock jumps to the earliest wake-up (discrete-event time).
 """
 import gc
+import os
 import sys
 import threading as _real_threading
 import types
@@ -122,6 +123,10 @@ class Scheduler(object):
     self.work = 0             # yield points executed (caps and bounds)
     self.decisions = 0
     self.cap = self.k.get("step_cap", 60000)
+    self._op_frames = []
+    self.raw_lines = 0
+    self.raw_line_cap = self.k.get("raw_line_cap", int(os.environ.get(
+      "VERIF_RAW_LINE_CAP", "600000")))
     self.aborting = False
     self.failure = None
     self.events = []
@@ -524,14 +529,53 @@ class Scheduler(object):
   # ----------------------------------------------------------------- tracing
   def _global_trace(self, frame, event, arg):
     if frame.f_code.co_filename in self.trace_files:
-      if self.opcodes:
+      if self.opcodes and not self.inert:
         frame.f_trace_opcodes = True
+        if frame.f_code.co_flags & 0x20:      # a generator: it may be resumed
+          self._op_frames.append(frame)       # (closed) when off the stack
       return self._local_trace
     return None
 
+  def _disarm_opcodes(self, frame=None):
+    """ CPython 3.12.1 crashes (NULL call in sys_trace_instruction_func)
+    when an exception leaves a trace callback while other threads are still
+    tracing: the raising thread loses its trace function, the interpreter
+    keeps delivering instruction events to every frame that asked for them.
+    So before such an exception leaves (and at the end of every run) no
+    frame asks for them any more. """
+    frames, self._op_frames = self._op_frames, []
+    while frame is not None:
+      frames.append(frame)
+      frame = frame.f_back
+    for f in frames:
+      try:
+        f.f_trace_opcodes = False
+      except Exception:
+        pass
+
   def _local_trace(self, frame, event, arg):
+    try:
+      return self._local_trace_body(frame, event, arg)
+    except BaseException:
+      if self.opcodes:
+        self._disarm_opcodes(frame)
+      raise
+
+  def _local_trace_body(self, frame, event, arg):
     if event == "line":
       if CURRENT is self and not self.inert:
+        # a loop that spins without ever reaching a synchronisation point
+        # (no pre-emption budget left: lines run free) still ends the run
+        self.raw_lines += 1
+        if self.raw_lines > self.raw_line_cap and not self.aborting:
+          self.count("spin-cap-reached")
+          self.fail(Violation(
+            "no-progress", "spin:" + self.describe_signature(),
+            "%d source lines of the code under test executed in this run "
+            "without the run ending (last line %d of %s); %s"
+            % (self.raw_lines, frame.f_lineno,
+               os.path.basename(frame.f_code.co_filename),
+               self.describe_threads())))
         cur = self.current
         if cur is not None:
           cur.last_line = frame.f_lineno
@@ -568,6 +612,8 @@ class Scheduler(object):
       try:
         result = main_fn()
       finally:
+        if self.opcodes:
+          self._disarm_opcodes()
         sys.settrace(None)
     except SimAbort:
       pass
